@@ -106,6 +106,8 @@ func runC06(w *h.W, batch int) {
 			opt.N = cr.Range(9000, 20000) // more than 8096 samples in one bin is possible
 			opt.Groups = cr.Range(1, 3)
 		}
+		// every fifth corpus: numeric fields hold nothing but values beyond the int64 range (no extra draws from cr for the others)
+		opt.HugeNums = (batch*nCorp+ci)%5 == 3
 		corp := gen.MakeCorpus(cr, opt)
 		shards := cr.Range(1, 6)
 		cl, err := sdb.OpenCluster(w.Sub(fmt.Sprintf("c%d", ci)), shards, 1, sdb.Opt{Mapping: StoreMapping()})
